@@ -44,8 +44,8 @@ PROPS = {
     },
     "C04": {
         "level": "exploration",
-        "parts": [{"engine": "sched", "profile": "c04", "weight": 1}],
-        "rule": "barrier workload on the C01 worlds: no task is completed until every stage the reference model calls eligible is in flight (parked at goroutine start or inside Run); checked whenever the eligible set may have changed, nested pipelines included; bound 60 s simulated. distinct = canonical event-log hash; non-trivial = >=2 tasks in flight together",
+        "parts": [{"engine": "sched", "profile": "c04", "weight": 2}, {"engine": "fault", "profile": "c04i", "weight": 1}],
+        "rule": "barrier workload on the C01 worlds: no task is completed until every stage the reference model calls eligible is in flight (parked at goroutine start or inside Run); checked whenever the eligible set may have changed, nested pipelines included; bound 2.5 s simulated = 25000 polling passes. INTEG part (real TaskRunner, executor, interpreter): pipelines of parallel / chained stages, half of them with several stages sharing one task; every goroutine that merely waits to be scheduled is let go, then every stage whose dependencies are satisfied must have a simulated process in flight before any process is completed. distinct = canonical event-log hash; non-trivial = >=2 tasks in flight together",
         "assumptions": _SCHED_ASSUME,
     },
 }
